@@ -723,6 +723,162 @@ fn cli_stalled_stdout(ctx: &Ctx) {
     }
 }
 
+
+/// Incremental output of the real binary when the INPUT trickles in: pieces of a few hundred bytes are written to the
+/// tool's stdin one at a time; after each piece the monitor waits until the tool has taken it and is blocked in
+/// read(0) again (pipe empty, process asleep in the read system call - a state, not a deadline) and then counts what
+/// has come out of its stdout so far. When pieces 0..k have been consumed, everything belonging to chunks 0..k-3
+/// must already have been written ("before more than two further chunks of input have been consumed").
+fn cli_trickled_input(ctx: &Ctx) {
+    use std::io::Write as _;
+    use std::os::unix::io::AsRawFd;
+    use std::process::{Command, Stdio};
+    let mut rng = Rng::fork(ctx.seed, "C11-trickle");
+    let alice = Ident::new("alice", "apw", &mut rng);
+    let bob = Ident::new("bob", "bpw", &mut rng);
+    let wd = WorkDir::new("c11t");
+    wd.write("kr.txt", crate::cli::keyring_text(&[(&alice, true), (&bob, true)]).as_bytes());
+    let piece = ctx.tier.pick(700usize, 333);
+    let npieces = ctx.tier.pick(10usize, 40);
+    let pt = rng.bytes(piece * npieces);
+    let chunking = vec![piece; npieces];
+    let kf = refspec::encode_key_file(&alice.sk, &alice.pk, &bob.pk, &rng.arr32(), &rng.arr32(), &pt, &chunking).unwrap();
+    let pf = refspec::encode_pass_file(b"ppw", &rng.arr32(), &pt, &chunking);
+    let rec = piece + 32;
+    let split = |bytes: &Vec<u8>, first: usize, each: usize| -> Vec<Vec<u8>> {
+        let mut v = vec![bytes[..first].to_vec()];
+        let mut off = first;
+        while off < bytes.len() {
+            let e = (off + each).min(bytes.len());
+            v.push(bytes[off..e].to_vec());
+            off = e;
+        }
+        v
+    };
+    // (what, argv, password, pieces fed, bytes that must be out once chunks 0..=j are due: base + (j+1)*per)
+    let cases: Vec<(&str, Vec<&str>, &str, Vec<Vec<u8>>, usize, usize)> = vec![
+        ("key encrypt", vec!["encrypt", "-t", "bob", "-f", "alice", "-k", "kr.txt", "--env-pass"], "apw", split(&pt, piece, piece), 132, rec),
+        ("password encrypt", vec!["password", "encrypt", "--env-pass"], "ppw", split(&pt, piece, piece), 36, rec),
+        ("key decrypt", vec!["decrypt", "-t", "bob", "-k", "kr.txt", "--env-pass"], "bpw", split(&kf, 132 + rec, rec), 0, piece),
+        ("password decrypt", vec!["password", "decrypt", "--env-pass"], "ppw", split(&pf, 36 + rec, rec), 0, piece),
+    ];
+    let fionread = |fd: i32| -> i64 {
+        let mut n: libc::c_int = 0;
+        if unsafe { libc::ioctl(fd, libc::FIONREAD, &mut n) } == 0 {
+            n as i64
+        } else {
+            -1
+        }
+    };
+    for (what, args, pw, pieces, base, per) in cases {
+        let mut c = Command::new("/usr/bin/setsid");
+        c.arg("-w").arg(crate::cli::kestrel_bin()).args(&args).env_clear().env("KESTREL_PASSWORD", pw).current_dir(&wd.path).stdin(Stdio::piped()).stdout(Stdio::piped()).stderr(Stdio::piped());
+        let mut child = match c.spawn() {
+            Ok(ch) => ch,
+            Err(e) => {
+                ctx.inconclusive(&format!("C11 trickle lane: spawn failed: {}", e));
+                continue;
+            }
+        };
+        let pid = child.id();
+        let mut stdin = child.stdin.take().unwrap();
+        let mut out = child.stdout.take().unwrap();
+        let mut err = child.stderr.take().unwrap();
+        let out_fd = out.as_raw_fd();
+        let produced = Arc::new(AtomicU64::new(0));
+        let produced2 = produced.clone();
+        let ot = std::thread::spawn(move || {
+            let mut buf = vec![0u8; 1 << 16];
+            while let Ok(k) = out.read(&mut buf) {
+                if k == 0 {
+                    break;
+                }
+                produced2.fetch_add(k as u64, Ordering::SeqCst);
+            }
+        });
+        let et = std::thread::spawn(move || {
+            let mut v = Vec::new();
+            let _ = err.read_to_end(&mut v);
+            v
+        });
+        // the kestrel process itself (the launcher may have forked)
+        let tool_pid = || -> Option<u32> {
+            let mut pids = vec![pid];
+            if let Ok(t) = std::fs::read_to_string(format!("/proc/{}/task/{}/children", pid, pid)) {
+                pids.extend(t.split_whitespace().filter_map(|x| x.parse::<u32>().ok()));
+            }
+            pids.into_iter().find(|p| std::fs::read_link(format!("/proc/{}/exe", p)).map(|l| l.file_name().map(|n| n == "kestrel").unwrap_or(false)).unwrap_or(false))
+        };
+        let blocked_in_read0 = |p: u32| -> bool {
+            // "0 0x0 ..." = system call 0 (read) on descriptor 0, process not running
+            std::fs::read_to_string(format!("/proc/{}/syscall", p)).map(|t| t.starts_with("0 0x0 ")).unwrap_or(false)
+        };
+        let in_fd = stdin.as_raw_fd();
+        let mut verdict: Option<(usize, u64, u64)> = None; // (pieces consumed, bytes out, bytes required)
+        let mut observations: Vec<(usize, u64, u64)> = Vec::new();
+        let mut lost = false;
+        for (k, pc) in pieces.iter().enumerate() {
+            if stdin.write_all(pc).is_err() || stdin.flush().is_err() {
+                lost = true;
+                break;
+            }
+            // wait for the state "piece taken, tool asleep in read(0), its output drained by us"
+            let t0 = std::time::Instant::now();
+            let mut settled = false;
+            while t0.elapsed() < std::time::Duration::from_secs(15) {
+                std::thread::sleep(std::time::Duration::from_millis(2));
+                if fionread(in_fd) != 0 {
+                    continue;
+                }
+                match tool_pid() {
+                    Some(p) if blocked_in_read0(p) => {
+                        if fionread(out_fd) == 0 {
+                            // look twice: the state must be stable
+                            std::thread::sleep(std::time::Duration::from_millis(5));
+                            if fionread(in_fd) == 0 && blocked_in_read0(p) && fionread(out_fd) == 0 {
+                                settled = true;
+                                break;
+                            }
+                        }
+                    }
+                    _ => {}
+                }
+                if child.try_wait().map(|s| s.is_some()).unwrap_or(true) {
+                    break;
+                }
+            }
+            if !settled {
+                lost = true;
+                break;
+            }
+            let have = produced.load(Ordering::SeqCst);
+            let required = if k >= 3 { (base + (k - 2) * per) as u64 } else { 0 };
+            observations.push((k + 1, have, required));
+            if have < required && verdict.is_none() {
+                verdict = Some((k + 1, have, required));
+            }
+        }
+        drop(stdin);
+        let status = child.wait();
+        let _ = ot.join();
+        let stderr = String::from_utf8_lossy(&et.join().unwrap_or_default()).into_owned();
+        ctx.eval();
+        let case = || json!({"case": what, "argv": args, "piece_bytes": piece, "pieces": pieces.len(), "observations_(pieces_consumed, bytes_out, bytes_required)": observations, "exit": format!("{:?}", status), "stderr": stderr});
+        if let Some((k, have, need)) = verdict {
+            let mut v = case();
+            v["first_shortfall"] = json!({"pieces_consumed": k, "bytes_out": have, "bytes_required": need});
+            ctx.violation(&format!("C11:cli:{}:output-withheld-while-input-trickles-in", what.replace(' ', "-")), v);
+        } else if lost || observations.len() < 5 {
+            ctx.inconclusive(&format!("C11 trickle lane ({}): the tool was not seen settled in read(0) after every piece ({} observations)", what, observations.len()));
+        } else {
+            ctx.seen(&format!("cli {}: output kept within two chunks of a trickling input at each of {} settled states", what, observations.len()));
+            ctx.seen("cli: output follows a trickling input within two chunks");
+            ctx.distinct(&format!("trickle|{}", what));
+            ctx.sample("trickled input", 1, || case());
+        }
+    }
+}
+
 pub fn run(ctx: &Ctx) {
     ctx.rule(
         "each execution streams n chunks from a generator (no backing buffer) through the real encryptor in one thread into a fixed ring buffer and through the real decryptor in \
@@ -736,8 +892,10 @@ pub fn run(ctx: &Ctx) {
     hostile_lengths(ctx);
     cli_rss(ctx);
     cli_stalled_stdout(ctx);
+    cli_trickled_input(ctx);
     ctx.require("cli: input offset while stdout is stalled stays within two chunks of the output", 3);
     ctx.require("streams within memory and lag bounds", 8);
+    ctx.require("cli: output follows a trickling input within two chunks", 3);
     ctx.require("hostile lengths: decryptor's peak memory independent of the tail length", 40);
     ctx.require("stream read in thousands of distinct sizes", 2);
     ctx.require("cli ", 3);
